@@ -277,7 +277,9 @@ impl RustRuleEngine {
 
     /// Activate agenda group
     pub fn activate_agenda_group(&mut self, group: String) {
-        self.workflow_engine.activate_agenda_group(group.clone());
+        // The focus change is applied right away. It must not also be queued in the workflow
+        // engine: the queued copy would be applied a second time by the next sync, overriding
+        // any focus change made in between and resetting lock-on-active tracking.
         self.agenda_manager.set_focus(&group);
     }
 
@@ -1290,8 +1292,8 @@ impl RustRuleEngine {
                 if self.config.debug_mode {
                     println!("  🎯 Activating agenda group: {}", group);
                 }
-                // Sync with both workflow engine and agenda manager immediately
-                self.workflow_engine.activate_agenda_group(group.clone());
+                // Applied immediately (and only once: queueing it as well would re-apply the
+                // activation at the end of the pass and let lock-on-active rules fire again)
                 self.agenda_manager.set_focus(group);
             }
             ActionType::ScheduleRule {
